@@ -4,6 +4,7 @@ import (
 	"testing"
 
 	"pgregory.net/rapid"
+	"verif/elem"
 	"verif/vk"
 )
 
@@ -15,6 +16,20 @@ func init() {
 }
 
 func genCtor(t *rapid.T) string { return rapid.SampledFrom([]string{"zero", "new"}).Draw(t, "ctor") }
+
+// genElem draws the element kind: half of the cases keep int (""), the rest
+// are spread over the other kinds (all four containers admit any type).  A
+// failing case shrinks towards int, so a counterexample that names another
+// kind needs that kind.
+func genElem(t *rapid.T) string {
+	if !rapid.Bool().Draw(t, "otherElem") {
+		return ""
+	}
+	return rapid.SampledFrom(elemKinds).Draw(t, "elem")
+}
+
+// hasIdentity: equal-valued elements of this kind can be told apart.
+func hasIdentity(kind string) bool { return kind != "" && kind != elem.Int && kind != elem.I16 }
 
 func genOps(t *rapid.T, kinds []string, maxOps int, fill func(t *rapid.T, op *Op)) []Op {
 	return rapid.SliceOfN(rapid.Custom(func(t *rapid.T) Op {
@@ -38,7 +53,7 @@ func splice(t *rapid.T, ops []Op, blk ...Op) []Op {
 }
 
 func genStackCase(t *rapid.T) SeqCase {
-	c := SeqCase{Ctor: genCtor(t), Ops: genOps(t, stackKinds, 60, func(t *rapid.T, op *Op) {
+	c := SeqCase{Ctor: genCtor(t), Elem: genElem(t), Ops: genOps(t, stackKinds, 60, func(t *rapid.T, op *Op) {
 		switch op.K {
 		case "peek", "peekNeg", "each", "pushRun", "popRun":
 			op.A = rapid.IntRange(0, 200).Draw(t, "a")
@@ -68,7 +83,7 @@ var mqKinds = []string{
 }
 
 func genMQueueCase(t *rapid.T) SeqCase {
-	c := SeqCase{Ctor: genCtor(t), Ops: genOps(t, mqKinds, 60, func(t *rapid.T, op *Op) {
+	c := SeqCase{Ctor: genCtor(t), Elem: genElem(t), Ops: genOps(t, mqKinds, 60, func(t *rapid.T, op *Op) {
 		switch op.K {
 		case "peek", "peekNeg", "each", "addRun", "popAll":
 			op.A = rapid.IntRange(0, 200).Draw(t, "a")
@@ -99,7 +114,9 @@ var listKinds = []string{
 	"clear", "peek", "peekNeg", "atNeg", "len", "each",
 }
 
-func fillListOp(t *rapid.T, op *Op) {
+// fillListOp draws the arguments of op; reSet is the chance (out of 8) that a
+// Set supplies a new element equal in value to the one it replaces.
+func fillListOp(t *rapid.T, op *Op, reSet int) {
 	switch op.K {
 	case "at", "find", "last", "end", "drop", "get", "set", "push", "add", "remove", "trunc", "next", "atend":
 		op.C = rapid.IntRange(0, nSlots-1).Draw(t, "slot")
@@ -112,6 +129,10 @@ func fillListOp(t *rapid.T, op *Op) {
 		op.A = rapid.IntRange(0, nKeys-1).Draw(t, "key")
 	case "add", "peekNeg", "atNeg", "each":
 		op.A = rapid.IntRange(0, 200).Draw(t, "a")
+	case "set":
+		if rapid.IntRange(0, 7).Draw(t, "reSet") < reSet {
+			op.A = 1
+		}
 	}
 	switch op.K {
 	case "set", "push", "add":
@@ -120,8 +141,15 @@ func fillListOp(t *rapid.T, op *Op) {
 }
 
 func genListCase(t *rapid.T) ListCase {
-	c := ListCase{Ctor: genCtor(t), Init: rapid.IntRange(0, 9).Draw(t, "init")}
-	c.Ops = genOps(t, listKinds, 50, fillListOp)
+	c := ListCase{Ctor: genCtor(t), Elem: genElem(t), Init: rapid.IntRange(0, 9).Draw(t, "init")}
+	// With a kind that has an identity, half of the Sets replace an element by
+	// a different one of the same value (pointer kinds: a new allocation with
+	// equal contents); with int that Set is unobservable, so it is rare there.
+	reSet := 1
+	if hasIdentity(c.Elem) {
+		reSet = 4
+	}
+	c.Ops = genOps(t, listKinds, 50, func(t *rapid.T, op *Op) { fillListOp(t, op, reSet) })
 	// Construction instead of rejection: splice in the three ways a cursor
 	// becomes stale (another cursor's Remove, an upstream Truncate, Clear),
 	// each followed by a use of the stale cursor.  Positions are small so they
@@ -154,6 +182,34 @@ func genListCase(t *rapid.T) ListCase {
 		}
 		c.Ops = splice(t, c.Ops, blk...)
 	}
+	// Likewise by construction: a cursor at a real element (a small index, the
+	// last element, or a found key) and a Set through it of a new element with
+	// the value of the one it replaces; sometimes twice, or followed by a Set of
+	// a fresh value.
+	maxReSets := 1
+	if hasIdentity(c.Elem) {
+		maxReSets = 2
+	}
+	for k := rapid.IntRange(0, maxReSets).Draw(t, "reSets"); k > 0; k-- {
+		s := rapid.IntRange(0, nSlots-1).Draw(t, "rs")
+		var blk []Op
+		switch rapid.IntRange(0, 2).Draw(t, "rhow") {
+		case 0:
+			blk = []Op{{K: "at", C: s, A: rapid.IntRange(0, 6).Draw(t, "ri")}}
+		case 1:
+			blk = []Op{{K: "last", C: s}}
+		default:
+			blk = []Op{{K: "find", C: s, A: rapid.IntRange(0, nKeys-1).Draw(t, "rkey")}}
+		}
+		blk = append(blk, Op{K: "set", C: s, A: 1})
+		switch rapid.IntRange(0, 3).Draw(t, "rthen") {
+		case 0:
+			blk = append(blk, Op{K: "set", C: s, A: 1})
+		case 1:
+			blk = append(blk, Op{K: "set", C: s, B: rapid.IntRange(0, nKeys-1).Draw(t, "rkey2")})
+		}
+		c.Ops = splice(t, c.Ops, blk...)
+	}
 	return c
 }
 
@@ -170,7 +226,7 @@ var ringKinds = []string{
 }
 
 func genRingCase(t *rapid.T) RingCase {
-	var c RingCase
+	c := RingCase{Elem: genElem(t)}
 	// start with a few rings so that pairs of every kind exist early
 	for k := rapid.IntRange(0, 3).Draw(t, "seedRings"); k > 0; k-- {
 		c.Ops = append(c.Ops, Op{K: rapid.SampledFrom([]string{"of", "of", "new"}).Draw(t, "mk"), A: rapid.IntRange(0, 6).Draw(t, "n")})
